@@ -7,11 +7,17 @@
              carries no clock value at all
      mode 1  timed stream (no janitor): the observation starts with one clock
              record [before; after; deadline] per operation (+1 for the final
-             observation) measured by the harness (UnixNano minus a per-case
-             base; deadline = the stored deadline read through the verif hook
-             after a storing call); the model is run at instants taken from
-             those records
+             observation) measured by the harness (absolute UnixNano values, so
+             that the model's int64 arithmetic on now + d is the code's;
+             deadline = the stored deadline read through the verif hook after a
+             storing call); the model is run at instants taken from those records
      mode 2  janitor stream: as mode 1, plus Await records
+               [lastSeenStored; firstSeenAbsent; machineTooSlow]
+             (-1 = never); see [await_op]
+     range records (codes 14-17) stand for n consecutive keys k0 .. k0+n-1 with
+             the values [rng_val vpat i]: 14 is ONE MapToCache call with an
+             n-entry map, 15/16/17 are n Set/Update/Delete calls (each with its
+             own result and, in modes 1 and 2, its own clock record)
    values  = codes: 0 is the empty string, c > 0 a distinct non-empty string;
              so V := Z and rejects := (=? 0)
    output  = [clock records (modes 1,2)] ++ main ++ enc_zs kinds
@@ -19,10 +25,18 @@
      kinds = the error enum of every error of main, in order (only [agree]
              compares them; the property text does not distinguish errors)
 
-   A timed case is DISCARDED (agree = holds = true, counted by the harness)
-   when a stored deadline lies inside the [before, after] bracket of a call,
-   because then wall-clock bracketing cannot decide on which side of the
-   deadline the call read the clock. *)
+   A timed case is DISCARDED as undecidable (agree = holds = true; the harness
+   re-runs it up to six times first, then drops it and counts it) when
+     - a stored deadline lies inside the [before, after] bracket of a call:
+       wall-clock bracketing cannot decide on which side of the deadline the
+       call read the clock (also when the clock stepped backwards);
+     - an Await gave up after the deadline but before deadline + 2 intervals +
+       slack, or the janitor was late while the harness's reference ticker was
+       late too (machine too slow);
+     - (janitor stream) the entry a call stored had expired and been purged
+       before the harness could read its deadline.
+   Nothing the harness can legitimately produce makes the walk fail
+   ([w_ok] = false) on a correct implementation. *)
 
 From Gogu Require Import Base C08_Model.
 Local Open Scope Z_scope.
@@ -41,6 +55,16 @@ Definition mk_map (v0 v1 v2 : Z) : list (Z * Z) :=
   (if v1 <? 0 then [] else [(1, v1)]) ++
   (if v2 <? 0 then [] else [(2, v2)]).
 
+(* values of a range record: vpat > 0: the distinct accepted values vpat + i;
+   vpat <= 0: every fifth value is the rejected one *)
+Definition rng_val (vpat i : Z) : Z :=
+  if vpat >? 0 then vpat + i else if i mod 5 =? 2 then 0 else 100 + i.
+
+Fixpoint zseq (start : Z) (n : nat) : list Z :=
+  match n with O => [] | S n' => start :: zseq (start + 1) n' end.
+
+Definition rng_len (n : Z) : nat := Z.to_nat (Z.min (Z.max n 0) 4096).
+
 Definition decode_op (r : list Z) : wop :=
   match r with
   | [code; a; b; c; d] =>
@@ -58,9 +82,22 @@ Definition decode_op (r : list Z) : wop :=
       | 11 => WOp (OIsExpired a)
       | 12 => WSleep a
       | 13 => WAwait a b
+      | 14 => WOp (OMapToCache Z (map (fun i => (a + i, rng_val c i)) (zseq 0 (rng_len b))) d)
       | _ => WBad
       end
   | _ => WBad
+  end.
+
+Definition decode_ops (r : list Z) : list wop :=
+  match r with
+  | [code; a; b; c; d] =>
+      match code with
+      | 15 => map (fun i => WOp (OSet Z (a + i) (rng_val c i) d)) (zseq 0 (rng_len b))
+      | 16 => map (fun i => WOp (OUpdate Z (a + i) (rng_val c i) d)) (zseq 0 (rng_len b))
+      | 17 => map (fun i => WOp (ODelete (a + i))) (zseq 0 (rng_len b))
+      | _ => [decode_op r]
+      end
+  | _ => [WBad]
   end.
 
 (* List is printed sorted by key (Go's map order is not an observable) *)
@@ -89,8 +126,7 @@ Definition enc_out (x : out Z) : list Z * list Z :=
   | RUnit => ([], [])
   end.
 
-Fixpoint upto (n : nat) : list Z :=
-  match n with O => [] | S n' => upto n' ++ [Z.of_nat n'] end.
+Definition upto (n : nat) : list Z := zseq 0 n.
 
 (* the end-of-case observation: Count, List, then Get and IsExpired of every
    key of the pool; in the janitor stream only the Gets (whether an expired
@@ -166,26 +202,50 @@ Definition timed_op (mode : Z) (given : bool) (s : wst) (o : op Z) : wst :=
   let amb := in_bracket c b a || negb mono in
   (* first run at [b] to learn whether a positive deadline gets stored *)
   let '(c1, x1) := step Z rej c o b in
-  let '(now, e_used, chk) :=
+  let '(now, e_used, chk, gone_early) :=
     match store_key o with
     | Some (k, d) =>
         let ex := exp_of c d b in
         let stored := match x1 with RErr None => true | _ => false end in
         if stored && (ex >? 0) then
+          if given && (mode =? 2) && (eg =? -2) then
+            (* janitor stream: the harness reads the stored deadline AFTER the
+               call; on a slow machine the entry can have expired and been
+               purged by then (-2 = absent): the instant of the store cannot be
+               recovered, the case is undecidable *)
+            (b, eg, true, true)
+          else
           let e := if given then eg else ex in
           let now := e - (ex - b) in
-          (now, e, (b <=? now) && (now <=? a))
+          (now, e, (b <=? now) && (now <=? a), false)
         else
           let m := exp_at c1 k in
           let e := if given then eg else m in
-          (b, e, (mode =? 2) || ((e <=? 0) && (m <=? 0)) || (e =? m))
-    | None => (b, 0, negb (multi_map o))
+          (b, e, (mode =? 2) || ((e <=? 0) && (m <=? 0)) || (e =? m), false)
+    | None =>
+        (* a MapToCache with several entries makes several Sets, each reading
+           the clock: decidable from one bracket only when no deadline is
+           stored (then the instants matter only for the liveness tests, which
+           [amb] covers) *)
+        (b, 0, negb (multi_map o) || (match o with OMapToCache _ _ d => exp_of c d b <=? 0 | _ => false end), false)
     end in
   let '(c2, x2) := step Z rej c o now in
   let s' := mkW c2 (w_main s) (w_kinds s) ([b; a; e_used] :: w_clk s)
-                (w_amb s || amb) (w_ok s && okrec && chk) (Z.max (w_last s) a) rest in
+                (w_amb s || amb || gone_early) (w_ok s && okrec && chk) (Z.max (w_last s) a) rest in
   emit mode s' [x2].
 
+(* Await k: the harness polls (through the hook) until key k is no longer
+   stored or until it gives up, and reports
+     tl  the last instant at which it SAW the key stored   (-1: never saw it)
+     tg  the first instant at which it saw the key absent  (-1: gave up)
+     slow  1 when a reference ticker of the same period, run by the harness
+           next to the cache's, was itself delayed by more than slack/2 during
+           the case: the machine was too loaded to blame the janitor
+   The janitor is late — the only thing judged about WHEN it runs — iff the key,
+   stored with the positive deadline ex, was still SEEN stored after
+   ex + 2*cleanupInt + slack.  When the key is first looked at after that
+   bound and found absent (tl = -1) nothing can be said against the janitor.
+   Late on a machine that was too slow: undecidable, the case is discarded. *)
 Definition await_op (given : bool) (s : wst) (k maxw : Z) : wst :=
   let c := w_c s in
   let '(rec, rest) := pop3 s in
@@ -193,27 +253,29 @@ Definition await_op (given : bool) (s : wst) (k maxw : Z) : wst :=
   let ci := cleanupInt c in
   let ex := exp_at c k in
   (* synthesised record: an expiring entry is seen gone just after its deadline *)
-  let syn := if ex >? 0 then (Z.max (w_last s) ex, Z.max (w_last s) ex + 1, 0)
+  let syn := if ex >? 0 then ((if w_last s <=? ex then ex else -1), Z.max (w_last s) ex + 1, 0)
              else if ex =? -2 then (-1, w_last s + 1, 0)
              else (w_last s + maxw, -1, 0) in
-  let '(tl, tg, _) := match rec with Some r => if given then r else syn | None => syn end in
+  let '(tl, tg, slow) := match rec with Some r => if given then r else syn | None => syn end in
+  let late := (ex >? 0) && (tl >? ex + 2 * ci + slack) in
+  let lamb := late && (slow =? 1) in
   if tg >=? 0 then
-    (* seen absent at tg: some firing of the ticker at an instant <= tg removed it *)
+    (* seen absent at tg: some firing of the ticker at an instant <= tg removed
+       it — which a tick may do only to an entry past its deadline at tg *)
     let c' := tick c tg in
     let gone := negb (is_some (al_get k (items c'))) in
-    let timing := if ex >? 0 then tg <=? ex + 2 * ci + slack else true in
-    mkW c' (w_main s) (w_kinds s) ([tl; tg; 0] :: w_clk s) (w_amb s)
-        (w_ok s && okrec && gone && timing) (Z.max (w_last s) tg) rest
+    mkW c' (w_main s) (w_kinds s) ([tl; tg; slow] :: w_clk s) (w_amb s || lamb)
+        (w_ok s && okrec && gone && negb late && (tl <? tg)) (Z.max (w_last s) tg) rest
   else
     (* still stored when the harness gave up at tl *)
     let '(amb, ok) :=
       if ex >? 0 then
-        (if tl >? ex + 2 * ci + slack then (false, false)    (* outlived deadline + 2 intervals + slack *)
+        (if late then (lamb, false)                          (* outlived deadline + 2 intervals + slack *)
          else if tl <=? ex then (false, true)                (* gave up before the deadline: rightly stored *)
          else (true, true))                                  (* gave up too early to decide *)
-      else if ex =? -2 then (false, false)
+      else if ex =? -2 then (false, false)                   (* the model has no such key: it cannot be seen stored *)
       else (false, true) in
-    mkW c (w_main s) (w_kinds s) ([tl; tg; 0] :: w_clk s) (w_amb s || amb)
+    mkW c (w_main s) (w_kinds s) ([tl; tg; slow] :: w_clk s) (w_amb s || amb)
         (w_ok s && okrec && ok) (Z.max (w_last s) tl) rest.
 
 Definition walk_op (mode : Z) (given : bool) (s : wst) (w : wop) : wst :=
@@ -256,9 +318,9 @@ Definition is_sleep (w : wop) : bool := match w with WSleep _ => true | _ => fal
 Definition walk (w : list Z) (clk : option (list Z)) : option wres :=
   match w with
   | mode :: e :: ci :: nk :: ops =>
-      if (0 <=? mode) && (mode <=? 2) && (0 <=? nk) && (nk <=? 64) &&
+      if (0 <=? mode) && (mode <=? 2) && (0 <=? nk) && (nk <=? 4096) &&
          (Nat.eqb (Nat.modulo (length ops) 5) 0) then
-        let wops := map decode_op (chunks 5 ops) in
+        let wops := flat_map decode_ops (chunks 5 ops) in
         let given := is_some clk in
         let s0 := mkW (new e ci) [] [] [] false true 1000 (match clk with Some l => l | None => [] end) in
         let s1 := fold_left (walk_op mode given) wops s0 in
@@ -273,7 +335,7 @@ Definition nrec (w : list Z) : nat :=
   match w with
   | mode :: _ :: _ :: _ :: ops =>
       if mode =? 0 then O
-      else S (length (filter (fun r => negb (is_sleep (decode_op r))) (chunks 5 ops)))
+      else S (length (filter (fun w => negb (is_sleep w)) (flat_map decode_ops (chunks 5 ops))))
   | _ => O
   end.
 
